@@ -1,4 +1,5 @@
 import AsyncsshModel.Model.Rekey
+import AsyncsshModel.Gen.C11
 /-
   C11 — Re-keying is invisible to applications and really changes keys.
   Per-endpoint theorems quantify over EVERY sequence of events (submissions by upper layers, limit
@@ -6,6 +7,20 @@ import AsyncsshModel.Model.Rekey
 -/
 namespace AsyncsshModel.C11
 open AsyncsshModel.Rekey
+
+/-! ### the model's deferral and trigger tests are the code's (regenerated from `send_packet`'s AST every run) -/
+
+theorem mustDefer_matches_code (e : Endpoint) (t : Nat) :
+    mustDefer e t = true ↔ Gen.C11.deferCond (t : Int) e.kexComplete e.authInProgress e.authComplete := by
+  simp only [mustDefer, Gen.C11.deferCond, MSG_DEBUG, MSG_SERVICE_REQUEST, MSG_SERVICE_ACCEPT, MSG_KEX_LAST,
+    MSG_USERAUTH_BANNER, MSG_USERAUTH_LAST]
+  cases e.kexComplete <;> cases e.authInProgress <;> cases e.authComplete <;> simp <;> omega
+
+/-- the trigger test of `sendPacket` is the code's `auth_complete and kex_complete and (limit reached)` -/
+theorem trigger_matches_code (e : Endpoint) :
+    (e.authComplete && e.kexComplete && e.rekeyDue) = true ↔
+      Gen.C11.triggerCond e.authComplete e.kexComplete e.rekeyDue := by
+  simp [Gen.C11.triggerCond, and_assoc]
 
 /-- key-exchange and transport-control messages: everything `send_packet` never defers during an exchange -/
 def controlType (t : Nat) : Prop :=
